@@ -18,6 +18,7 @@ RULES_DOC = dict(common.SHARED_DOC)
 RULES_DOC["X4"] = common.X4_DOC
 RULES_DOC["X5"] = common.X5_DOC
 RULES_DOC["R5"] = "= C06.R2 and C06.R1/R3/R4: the waiter that a set wakes is pushed before it stops being counted as blocked, and is counted on the pool it will be resumed on (a woken waiter is never stranded in a pool whose stream already terminated)"
+RULES_DOC["X6"] = common.X6_DOC
 RULES_DOC.update({
     "R1": "eventual_set: copy -> ready=TRUE -> broadcast inside one lock section; already-ready arm mutates nothing and returns ABT_ERR_EVENTUAL",
     "R2": "eventual wait/test/reset access `ready` only under the lock; not-ready wait enqueues with the eventual's own list and lock",
@@ -304,6 +305,7 @@ def rule_R4(P, rep):
 
 
 def run(P, rep, tier):
+    common.rule_X6(P, rep)
     common.rule_widths(P, rep, [('ABTI_future', 'counter'), ('ABTI_future', 'num_compartments')])
     common.rule_X4(P, rep)
     common.run_shared(P, rep)
